@@ -64,7 +64,98 @@ def rules(model: Model, tier: str) -> List[RuleResult]:
     _contract(model, sites, A, N)
     for fc in ac.function_classes(model):
         option_merge(model, fc, O)
-    return [G, L, C, Rr, A, N, O]
+    K = RuleResult(PROP, "C18-K", "minimize: method kind -> algorithm family truth table (built-in minimizer, built-in root finder, unknown name, callable)", min_instances=4)
+    Dm = RuleResult(PROP, "C18-D", "solve / symeig: the backward defaults do not inherit the forward `method` (a forward-only callable is never reused for the adjoint system)", min_instances=2)
+    _minimize_kinds(model, K)
+    _backward_defaults(model, Dm)
+    return [G, L, C, Rr, A, N, O, K, Dm]
+
+
+def _minimize_kinds(model: Model, K: RuleResult):
+    """`minimize` decides from the method value whether the implementation receives (f, df) [minimizer family] or df alone [root
+    finder family] and which table get_method searches.  The decision is evaluated over the finite domain of method kinds; a
+    user-supplied callable is a *minimization* method (it receives the documented (f, df/dy) pair)."""
+    f = model.func("xitorch/optimize/rootfinder.py", "minimize")
+    mod = f.module
+    defs = function_defs(f.node)
+    # the flag that selects the forward function / alg_type
+    apply_calls = [c for c in own_nodes(f.node) if isinstance(c, ast.Call) and ast.unparse(c.func).endswith(".apply")]
+    if not apply_calls:
+        raise AnchorError("minimize: apply call vanished")
+    alg = apply_calls[0].args[3] if len(apply_calls[0].args) > 3 else None
+    algdef = defs.get(alg.id, [None])[0] if isinstance(alg, ast.Name) else alg
+    if not (isinstance(algdef, ast.IfExp) and isinstance(algdef.test, ast.Name)):
+        raise AnalysisError("C18-K: the algorithm family is no longer `\"minimizer\" if <flag> else \"rootfinder\"`")
+    flag = algdef.test.id
+    fam_true, fam_false = ast.literal_eval(algdef.body), ast.literal_eval(algdef.orelse)
+    fdef = defs.get(flag, [])
+    if len(fdef) != 1:
+        raise AnalysisError("C18-K: flag %s is not defined exactly once" % flag)
+    tables = {}
+    for nm in ("_RF_METHODS", "_OPT_METHODS"):
+        if nm not in mod.assigns or not isinstance(mod.assigns[nm], ast.Dict):
+            raise AnchorError("table %s vanished" % nm)
+        tables[nm] = {k.value for k in mod.assigns[nm].keys if isinstance(k, ast.Constant)}
+
+    def ev(e, kind):
+        if isinstance(e, ast.UnaryOp) and isinstance(e.op, ast.Not):
+            return not ev(e.operand, kind)
+        if isinstance(e, ast.BoolOp):
+            vs = [ev(v, kind) for v in e.values]
+            return all(vs) if isinstance(e.op, ast.And) else any(vs)
+        if isinstance(e, ast.Compare) and len(e.ops) == 1 and isinstance(e.left, ast.Name) and e.left.id == "method" and isinstance(e.ops[0], (ast.In, ast.NotIn)):
+            t = e.comparators[0]
+            tn = ast.unparse(t).replace(".keys()", "")
+            if tn not in tables:
+                raise AnalysisError("C18-K: membership in an unknown table %s" % tn)
+            member = {"rf": tn == "_RF_METHODS", "opt": tn == "_OPT_METHODS", "unknown": False, "callable": False}[kind]
+            return member if isinstance(e.ops[0], ast.In) else not member
+        if isinstance(e, ast.Call) and ast.unparse(e.func) in ("callable",) and ast.unparse(e.args[0]) == "method":
+            return kind == "callable"
+        if isinstance(e, ast.Call) and ast.unparse(e.func) == "isinstance" and ast.unparse(e.args[0]) == "method" and ast.unparse(e.args[1]) == "str":
+            return kind != "callable"
+        raise AnalysisError("C18-K: cannot evaluate `%s` over method kinds" % ast.unparse(e))
+    want = {"rf": fam_false if fam_false == "rootfinder" else fam_true, "opt": "minimizer", "callable": "minimizer"}
+    for kind, label in (("rf", "built-in root-finder name %s" % sorted(tables["_RF_METHODS"])[:2]), ("opt", "built-in minimizer name %s" % sorted(tables["_OPT_METHODS"])[:2]),
+                        ("callable", "user-supplied callable")):
+        v = ev(fdef[0], kind)
+        fam = fam_true if v else fam_false
+        exp = "rootfinder" if kind == "rf" else "minimizer"
+        if fam == exp:
+            K.ok(f.fq, "%s -> %s family" % (label, fam))
+        else:
+            K.bad(f, enclosing_stmt(fdef[0]), "%s is routed to the %s family (expected %s): the implementation receives %s" %
+                  (label, fam, exp, "only the gradient instead of the (f, df/dy) pair" if exp == "minimizer" else "the (f, df) pair instead of the residual"))
+    # the forward function follows the same flag
+    ifs = [s_ for s_ in f.node.body if isinstance(s_, ast.If) and isinstance(s_.test, ast.Name) and s_.test.id == flag]
+    okf = False
+    if ifs:
+        b = [ast.unparse(x.value) for x in ifs[0].body if isinstance(x, ast.Assign)]
+        o = [ast.unparse(x.value) for x in ifs[0].orelse if isinstance(x, ast.Assign)]
+        okf = b == ["_min_fwd_fcn"] and o == ["_rf_fcn"]
+    if okf:
+        K.ok(f.fq, "the forward function is (f, df) for the minimizer family and df alone for the root-finder family, on the same flag")
+    else:
+        K.bad(f, ifs[0] if ifs else f.node, "the forward function handed to the implementation must follow the same family flag")
+
+
+def _backward_defaults(model: Model, Dm: RuleResult):
+    for rel, cname in (("xitorch/linalg/solve.py", "solve_torchfcn"), ("xitorch/linalg/symeig.py", "symeig_torchfcn")):
+        fc = ac.get_fncls(model, cname)
+        fw = fc.forward
+        merges = [s_ for s_ in own_nodes(fw.node) if isinstance(s_, ast.Assign) and isinstance(s_.value, ast.Call)
+                  and ast.unparse(s_.value.func).split(".")[-1] == "set_default_option" and len(s_.value.args) == 2
+                  and ast.unparse(s_.value.args[1]) == "bck_options"]
+        if len(merges) != 1:
+            raise AnalysisError("C18-D: %s.forward no longer builds its backward options with set_default_option(<defaults>, bck_options)" % cname)
+        d = merges[0].value.args[0]
+        names = {n.id for n in ast.walk(d) if isinstance(n, ast.Name)}
+        keys = [k.value for k in d.keys if isinstance(k, ast.Constant)] if isinstance(d, ast.Dict) else None
+        if isinstance(d, ast.Dict) and "method" not in names and "fwd_options" not in names and "config" not in names and "method" not in (keys or []):
+            Dm.ok(fw.fq, "%s: backward defaults %s are independent of the forward method and options" % (cname, ast.unparse(d)))
+        else:
+            Dm.bad(fw, merges[0], "%s: the backward defaults depend on the forward `method`/options: a forward callable specialised to the forward system would be "
+                   "reused for the adjoint system" % cname)
 
 
 # ------------------------------------------------------------------------------------------------- G
